@@ -175,6 +175,7 @@ type runOpts struct {
 	full    int // requests per scenario that get the full matrix among those with a strategy choice
 	fullNo  int // ... among those without
 	ntune   int // tuning combinations per (request, planner); 0 = all
+	maxReq  int // requests per scenario (random sample beyond that); 0 = all
 }
 
 type cfgOut struct {
@@ -244,8 +245,18 @@ func runScenario(ctx context.Context, w *rec.Writer, r *rec.Rand, g *rig, s *sce
 	atoms := in.Atoms(s, objects)
 	tunings := allTunings()
 	reps := 4
-	// pass 1: every request, the three forced planners, default tuning, one run each
+	// pass 1: every request (or a random sample of them), the three forced planners, default
+	// tuning, one run each
 	var reqs []*reqState
+	total := 0
+	for range subjects {
+		for _, o := range objects {
+			ot, _ := scen.SplitObj(o)
+			if td := s.Type(ot); td != nil {
+				total += len(td.Rels)
+			}
+		}
+	}
 	for si, sub := range subjects {
 		for _, o := range objects {
 			ot, _ := scen.SplitObj(o)
@@ -254,6 +265,9 @@ func runScenario(ctx context.Context, w *rec.Writer, r *rec.Rand, g *rig, s *sce
 				continue
 			}
 			for _, rd := range td.Rels {
+				if ro.maxReq > 0 && total > ro.maxReq && !r.Chance(ro.maxReq, total) {
+					continue
+				}
 				w.Stat("requests", 1)
 				q := &reqState{sub: sub, obj: o, rel: rd.Name, si: si, outs: make([]map[int]bool, len(g.planners))}
 				for i := range q.outs {
@@ -413,9 +427,9 @@ func main() {
 	w := rec.NewWriter(o.Out)
 	defer w.Close()
 	ctx := context.Background()
-	ro := runOpts{tier: o.Tier, verbose: os.Getenv("C02_VERBOSE") != "", full: 10, fullNo: 2, ntune: 4}
+	ro := runOpts{tier: o.Tier, verbose: os.Getenv("C02_VERBOSE") != "", full: 10, fullNo: 2, ntune: 4, maxReq: 120}
 	if o.Tier == "thorough" {
-		ro = runOpts{tier: o.Tier, verbose: ro.verbose, full: 30, fullNo: 5, ntune: 0}
+		ro = runOpts{tier: o.Tier, verbose: ro.verbose, full: 30, fullNo: 5, ntune: 0, maxReq: 500}
 	}
 	g := newRig(o.Seed, maxDepth)
 	defer g.close()
@@ -434,7 +448,7 @@ func main() {
 		defer f.Close()
 		sc := bufio.NewScanner(f)
 		sc.Buffer(make([]byte, 1<<20), 1<<26)
-		ro.full, ro.fullNo, ro.ntune = 0, 1<<30, 0
+		ro.full, ro.fullNo, ro.ntune, ro.maxReq = 0, 1<<30, 0, 0
 		for sc.Scan() {
 			var d replayDesc
 			if json.Unmarshal(sc.Bytes(), &d) != nil {
@@ -487,14 +501,20 @@ func main() {
 		if noErr && i%2 == 0 {
 			runLO(ctx, w, rr, g, s, nil)
 		}
+		t0 := time.Now()
 		for k := 0; k < 12; k++ {
 			runFP(w, genFP(rr))
 		}
+		t1 := time.Now()
 		for k := 0; k < 6; k++ {
 			runW2(w, lc, genW2(rr), 6)
 		}
+		t2 := time.Now()
 		for k := 0; k < 3; k++ {
 			runBFS(ctx, w, rigs, o.Seed, genBFS(rr))
 		}
+		w.Stat("ms_fastpath", int(t1.Sub(t0).Milliseconds()))
+		w.Stat("ms_weight2", int(t2.Sub(t1).Milliseconds()))
+		w.Stat("ms_bfs", int(time.Since(t2).Milliseconds()))
 	}
 }
